@@ -51,7 +51,8 @@ def place(shape, deps):
     if shape == "scattered":
         kids = []
         for i, dep in enumerate(d):
-            kids.append(ht.span("t%d" % i, dep) if i % 3 == 0 else dep if i % 3 == 1 else ht.div(ht.p(ht.tags.b(dep)), "x"))
+            kids.append(ht.span("t%d" % i, dep) if i % 4 == 0 else dep if i % 4 == 1 else ht.div(ht.p(ht.tags.b(dep)), "x") if i % 4 == 2
+                        else ht.div([ht.img, ht.br, ht.tags.input, ht.tags.link, ht.hr, ht.tags.meta][i % 6](dep), "v"))
         return ht.div("lead", *kids, "tail")
     if shape == "nested_containers":
         half = len(d) // 2
@@ -75,7 +76,7 @@ def place(shape, deps):
                 elif r < 0.6 or depth <= 0:
                     kids.append(rng.choice(["t", ht.HTML("<i>h</i>"), None, 3]))
                 elif r < 0.8:
-                    kids.append(rng.choice([ht.div, ht.span, ht.tags.ul, ht.p])(*sub(depth - 1), _add_ws=rng.random() < 0.5))
+                    kids.append(rng.choice([ht.div, ht.span, ht.tags.ul, ht.p, ht.img, ht.br, ht.tags.input, ht.tags.link, ht.hr, ht.tags.script, ht.tags.head])(*sub(depth - 1), _add_ws=rng.random() < 0.5))
                 else:
                     inner = sub(depth - 1)
                     kids.append(rng.choice([list, tuple, lambda x: ht.TagList(*x)])(inner))
@@ -210,6 +211,23 @@ def validation_matrix(ctx):
                 ctx.case(("missing", field, r, form), nontrivial=True)
                 if d is not None:
                     ctx.violation("item-missing-required-key-accepted", "%s without %r (%s form) accepted" % (field, r, form), {"field": field, "form": form})
+        # missing required key although optional keys are present
+        optional = {"script": [{"async": "", "defer": "", "type": "module", "integrity": "x", "crossorigin": "anonymous"}],
+                    "stylesheet": [{"media": "print", "rel": "preload", "as": "style", "title": "t"}],
+                    "meta": [{"http-equiv": "refresh"}, {"charset": "utf-8"}, {"http-equiv": "x", "charset": "y"}]}[field]
+        for opt in optional:
+            for r in reqs:
+                bad = dict({k: v for k, v in good.items() if k != r}, **opt)
+                for form, val in (("single", bad), ("list", [bad])):
+                    d, e = accepts(**{field: val})
+                    ctx.count("oracle.validation")
+                    ctx.case(("missing+optional", field, r, form, tuple(opt)), nontrivial=True)
+                    if d is not None:
+                        ctx.violation("item-missing-required-key-accepted", "%s without %r but with %r (%s form) accepted" % (field, r, sorted(opt), form), {"field": field, "form": form})
+            okv = dict(good, **opt)
+            d, e = accepts(**{field: okv})
+            if d is None:
+                ctx.violation("valid-definition-rejected", "%s with optional keys %r rejected: %r" % (field, sorted(opt), e), {"field": field})
         # non-dict items
         for val in ("a.js", ["a.js"], [_c.deepcopy(good), "x"], [["src", "a"]], 7, [None]):
             d, e = accepts(**{field: val})
